@@ -9,6 +9,7 @@ import (
 	"io"
 	"log"
 	"os"
+	"testing/synctest"
 	"time"
 )
 
@@ -85,8 +86,16 @@ func vIteInt(c bool, a, b int) int {
 func vEqBytes(a, b []byte) bool { return string(a) == string(b) }
 func vEqStr(a, b string) bool   { return a == b }
 func vNow() time.Time           { return time.Now() }
-func vAdvance(d time.Duration)  {}
-func vYield()                   { time.Sleep(20 * time.Millisecond) }
+
+// Native replays run inside a testing/synctest bubble: time is virtual and exact.
+func vAdvance(d time.Duration) {
+	if d > 0 {
+		time.Sleep(d)
+	}
+	synctest.Wait()
+}
+func vYield() { synctest.Wait() }
+
 func vOpt(name string, v int)   {}
 func vTimerPending(t *time.Timer) bool { return true }
 func vTimerRemaining(t *time.Timer) time.Duration { return 0 }
